@@ -240,7 +240,7 @@ _ADD4 = {
  "C10": " + connected clients that transmit their challenge response again + a connected peer that bundles a CLIENT_HELLO-typed message with application data (clause L_token)",
  "C11": " + block lists in the spellings a dual-stack transport reports, judged against the operator's own record; the lock-stepped world is total when the server loop dies + bytes in / bytes out at the small end of the MTU range (open finding hello-amplification-at-small-mtu)",
  "C12": " + clause T_stayup (a CONNECTED client over a healthy link stays CONNECTED) + first answer slower than the client's message time-out with the client at its own frame rate + a server that sends state to every client on every tick + clause T_clisilent with an application that polls its client more slowly than the server sends (one update() per frame)",
- "C13": " + objects with container-annotated fields set to None / empty / filled + a subclass that adds a field to a Serializable base class",
+ "C13": " + objects with container-annotated fields set to None / empty / filled + a subclass that adds a field to a Serializable base class + a class with a read-only property",
  "C14": " (the observation loop stops after three watchdog hits)",
  "C15": " + a Set of nested objects",
  "C16": " + bindings compared exactly as reported + a literal followed by a line feed in the path alphabet",
@@ -251,4 +251,4 @@ for _k, _t in _ADD4.items():
     CHECKS[_k]["technique"] += _t
 NOTES = NOTES.replace("Extension checks X01..X05", "Extension checks X01..X12")
 NOTES += (" audit/ holds demonstration programs written by independent sub-agents that audited the unchanged tree against the property texts (DESIGN 7.6); "
-          "the defects among them that were repaired are the `fixed:` lines D22..D31 of KNOWN_FINDINGS.txt.")
+          "the defects among them that were repaired are the `fixed:` lines D22..D32 of KNOWN_FINDINGS.txt.")
